@@ -252,6 +252,30 @@ def gen_input(rng, kind, size):
             ctr += 1 + rng.randrange(4)
             rec += ctr.to_bytes(4, "little") + bytes(rng.choice(b"\x00\x01\x02\xff") for _ in range(12))
         return head + a + bytes(rec[:rest - rest // 2])
+    if kind == "nearrle":    # runs of one byte with a single deviation inside the last 32 bytes of a block / of the input
+        a = rng.randrange(256)
+        out = bytearray([a]) * size
+        ends = [e for e in range(131072, size + 1, 131072)] + [size]
+        for e in ends:
+            if e > 131072 and rng.random() < 0.8:       # not in the first block (never emitted as RLE)
+                out[e - 1 - rng.randrange(min(32, e))] = (a + 1 + rng.randrange(255)) & 255
+        return bytes(out)
+    if kind == "hufrepeat":  # block 1: small alphabet + a few occurrences of a large byte; later blocks: long copies of block 1
+        #              separated by a few literals whose largest byte is new but below that large byte (Huffman table re-use)
+        lo = rng.randrange(40, 90)
+        alpha = bytes(range(lo, lo + 8))
+        big = lo + 40 + rng.randrange(20)
+        new = lo + 10 + rng.randrange(20)
+        b1 = bytearray(rng.choice(alpha) for _ in range(min(size, 131072)))
+        for _ in range(rng.choice([1, 3, 8])):
+            b1[rng.randrange(len(b1))] = big
+        out = bytearray(b1)
+        chunk = rng.choice([400, 500, 700])
+        while len(out) < size:
+            st = rng.randrange(0, len(b1) - chunk)
+            out += b1[st:st + chunk]
+            out += bytes([rng.choice(alpha), rng.choice(alpha), new if rng.random() < 0.5 else rng.choice(alpha)])
+        return bytes(out[:size])
     if kind == "selfcopy":   # repeated self-references with small edits: repcode heavy
         out = bytearray(rng.randbytes(rng.choice([16, 64, 300])))
         while len(out) < size:
